@@ -233,12 +233,20 @@ pub fn replay_direct(ctx: &Ctx, doc: &psc_model::serde_json::Value) -> Option<Re
 
 /// The bit-length cap can only be told apart from "not enough data" with 64 MiB of payload.
 fn bit_cap_cases(ctx: &Ctx, report: &mut Report) {
-	let e = ctx.entry("BitVec<u8, Lsb0>");
+	let names: Vec<&str> = if ctx.tier == Tier::Thorough {
+		ctx.zoo.iter().filter(|e| e.decode_slice.is_some() && matches!(e.ty, Ty::Bits { .. })).map(|e| e.name).collect()
+	} else {
+		vec!["BitVec<u8, Lsb0>", "BitVec<u64, Msb0>"]
+	};
+	for name in names {
+	let e = ctx.entry(name);
+	let word = match e.ty { Ty::Bits { store, .. } => store as usize, _ => 8 };
 	let dec = e.decode_slice.unwrap();
 	for (bits, expect_ok) in [((1u64 << 29) - 1, true), (1 << 29, false), ((1 << 29) + 8, false)] {
 		let mut input = psc_model::enc::compact_bytes(u128::from(bits));
 		let head = input.len();
-		input.resize(head + (bits as usize + 7) / 8 + 4, 0);
+		let payload = (bits as usize + word - 1) / word * (word / 8);
+		input.resize(head + payload + 4, 0);
 		let r = guard(|| {
 			let (r, used) = dec(&input);
 			(r.is_ok(), used)
@@ -247,7 +255,7 @@ fn bit_cap_cases(ctx: &Ctx, report: &mut Report) {
 		report.stats.class("bit-count around 2^29 with a full 64 MiB payload");
 		report.stats.nontrivial(&("bitcap", bits));
 		let ok = match r {
-			Ok((ok, used)) => ok == expect_ok && (!ok || used == head + (bits as usize + 7) / 8),
+			Ok((ok, used)) => ok == expect_ok && (!ok || used == head + payload),
 			Err(_) => false,
 		};
 		if !ok {
@@ -255,11 +263,12 @@ fn bit_cap_cases(ctx: &Ctx, report: &mut Report) {
 				&ctx.known,
 				Violation::new(
 					"C03/bit-length-cap",
-					format!("BitVec<u8, Lsb0> with a claimed length of {bits} bits and a full payload: expected {}, got {r:?}", if expect_ok { "acceptance" } else { "rejection (more than 2^29-1 bits)" }),
+					format!("{name} with a claimed length of {bits} bits and a full payload: expected {}, got {r:?}", if expect_ok { "acceptance" } else { "rejection (more than 2^29-1 bits)" }),
 				),
 				json!({"kind": "none"}),
 			);
 		}
+	}
 	}
 }
 
@@ -270,9 +279,7 @@ pub fn run(ctx: &Ctx) -> (Level, Report) {
 		report.absorb(name, out);
 	}
 	exhaustive(ctx, &mut report);
-	if ctx.tier == Tier::Thorough {
-		bit_cap_cases(ctx, &mut report);
-	}
+	bit_cap_cases(ctx, &mut report);
 	(
 		Level {
 			level: "exploration",
